@@ -219,11 +219,12 @@ Record variant := mkVar {
   v_meta : bool;   (* Initialize loads the JSON schema bytes like the other two metadata *)
   v_ftime : bool;  (* fieldtimes is computed from the annotations (memory and store path) *)
   v_schdel : bool; (* DELETE json_schema also drops the compiled schema *)
+  v_binit : bool;  (* initMemoryDB registers only existing branches and committed versions *)
 }.
-Definition repaired : variant := mkVar true true true true true true true true.
+Definition repaired : variant := mkVar true true true true true true true true true.
 (* repairs 1-6 only: /repo after the first six fix: commits *)
-Definition interim : variant := mkVar true true true true true true false false.
-Definition shipped : variant := mkVar false false false false false false false false.
+Definition interim : variant := mkVar true true true true true true false false false.
+Definition shipped : variant := mkVar false false false false false false false false false.
 
 (* memstore.go:173 *)
 Definition addBodyID (ids : list N) (b : N) : res (list N) :=
@@ -261,6 +262,14 @@ Record vstore := mkVS {
   s_data : ndata;
   s_meta : list (N * bytes);      (* schema kind -> bytes *)
 }.
+(* a version: the n-th of master counted from the root, or the i-th of the second branch "b" *)
+Inductive vref := VM (abs : nat) | VB (i : nat).
+Definition vref_eqb (a b : vref) : bool :=
+  match a, b with VM x, VM y | VB x, VB y => Nat.eqb x y | _, _ => false end.
+(* the store configuration "inmemory": [":b"] and version uuids *)
+Record config := mkCfg { cfg_branch : bool; cfg_static : list vref }.
+Record bchain := mkB { b_head : vstore; b_parents : list vstore; b_locked : bool }.
+
 Record state := mkSt {
   st_mem : memdb;                  (* dbs.head["master"] *)
   st_mmeta : list (N * bytes);     (* d.metadata *)
@@ -268,6 +277,10 @@ Record state := mkSt {
   st_head : vstore;                (* leaf of master *)
   st_parents : list vstore;        (* committed ancestors, nearest first *)
   st_locked : bool;
+  st_branch : option bchain;       (* the second branch, once created *)
+  st_bmem : option memdb;          (* dbs.head["b"] *)
+  st_static : list (vref * memdb); (* dbs.static *)
+  st_cfg : config;                 (* read by Initialize: at instance creation and at every restart *)
 }.
 Definition mget := @aget N bytes N.eqb.
 Definition mset := @aset N bytes N.eqb.
@@ -279,7 +292,15 @@ Definition k_schema : N := n_nj_NeuSchema.
 Definition k_schema_batch : N := n_nj_NeuSchemaBatch.
 
 Definition empty_mem : memdb := mkMem [] [] [] [] false.
-Definition init_state : state := mkSt empty_mem [] None (mkVS [] []) [] false.
+Definition no_cfg : config := mkCfg false [].
+Definition init_state : state := mkSt empty_mem [] None (mkVS [] []) [] false None None [] no_cfg.
+
+(* the master part of a state replaced *)
+Definition with_master (s : state) (m : memdb) (mm : list (N * bytes)) (c : option bytes)
+           (h : vstore) (ps : list vstore) (l : bool) : state :=
+  mkSt m mm c h ps l (st_branch s) (st_bmem s) (st_static s) (st_cfg s).
+Definition with_branch (s : state) (b : option bchain) (bm : option memdb) : state :=
+  mkSt (st_mem s) (st_mmeta s) (st_compiled s) (st_head s) (st_parents s) (st_locked s) b bm (st_static s) (st_cfg s).
 
 (* fieldTimes[root] = newData[field] for the string-valued *_time fields *)
 Fixpoint set_ftimes (o : obj) (ft : list (bytes * bytes)) : list (bytes * bytes) :=
@@ -298,39 +319,51 @@ Fixpoint set_ftimes (o : obj) (ft : list (bytes * bytes)) : list (bytes * bytes)
 Definition bad_stamp (o : obj) : bool :=
   existsb (fun p => is_meta (fst p) && negb (is_null (snd p)) && match snd p with JStr _ => false | _ => true end) o.
 
-(* storeAndUpdate (neuronjson.go:1416) on the head version *)
-Definition storeAndUpdate (V : variant) (s : state) (id : N) (new0 : obj)
-           (user : bytes) (conds : list bytes) (replace : bool) (timeStr : bytes) : res state :=
-  let orig := nget id (s_data (st_head s)) in
+(* the memdb part of storeAndUpdate: data, field counters, fieldTimes, sorted ids *)
+Definition mem_put (V : variant) (m : memdb) (id : N) (orig orig1 : option obj) (new' : obj) : res memdb :=
+  let dec_fields := match (if v_cnt V then orig else orig1) with Some o => dom o | None => [] end in
+  let fields := fold_left (cadd 1) (dom new') (fold_left (cadd (-1)) dec_fields (m_fields m)) in
+  let ft := if v_ftime V then m_ftimes m else set_ftimes new' (m_ftimes m) in
+  res_bind (addBodyID (m_ids m) id) (fun ids =>
+    Ok (mkMem (nset id new' (m_data m)) ids fields ft (v_ftime V || m_ftdirty m))).
+
+(* the memdb part of DeleteData *)
+Definition mem_del (V : variant) (m : memdb) (id : N) : res memdb :=
+  match nget id (m_data m) with
+  | Some o =>
+      res_bind (deleteBodyID V (m_ids m) id) (fun ids =>
+        Ok (mkMem (ndel id (m_data m)) ids (fold_left (cadd (-1)) (dom o) (m_fields m)) (m_ftimes m)
+                  (v_ftime V || m_ftdirty m)))
+  | None => Ok m
+  end.
+
+(* storeAndUpdate (neuronjson.go:1416) on a version served by [om] (None: no memdb, store only) *)
+Definition sau (V : variant) (om : option memdb) (st : vstore) (id : N) (new0 : obj)
+           (user : bytes) (conds : list bytes) (replace : bool) (timeStr : bytes) : res (option memdb * vstore) :=
+  let orig := nget id (s_data st) in
   if omem (fuser s_bodyid) new0 || omem (ftime s_bodyid) new0 then Err
   else if bad_stamp new0 then Err
   else
     let '(orig1, new') := updateJSON user conds replace timeStr orig new0 in
-    let m := st_mem s in
-    let dec_fields := match (if v_cnt V then orig else orig1) with Some o => dom o | None => [] end in
-    let fields := fold_left (cadd 1) (dom new') (fold_left (cadd (-1)) dec_fields (m_fields m)) in
-    let ft := if v_ftime V then m_ftimes m else set_ftimes new' (m_ftimes m) in
-    res_bind (addBodyID (m_ids m) id) (fun ids =>
-      Ok (mkSt (mkMem (nset id new' (m_data m)) ids fields ft (v_ftime V || m_ftdirty m)) (st_mmeta s) (st_compiled s)
-               (mkVS (nset id new' (s_data (st_head s))) (s_meta (st_head s)))
-               (st_parents s) (st_locked s))).
+    let st' := mkVS (nset id new' (s_data st)) (s_meta st) in
+    match om with
+    | Some m => res_bind (mem_put V m id orig orig1 new') (fun m' => Ok (Some m', st'))
+    | None => Ok (None, st')
+    end.
 
 Definition max_u64 : N := 18446744073709551615.
 
-(* getJSONSchema on the open head: the compiled schema if there is one, else the stored bytes *)
-Definition schema_in_force (s : state) : option bytes :=
-  match st_compiled s with Some b => Some b | None => mget k_json_schema (s_meta (st_head s)) end.
-
-(* PutData (neuronjson.go:1470): [vd] is the JSON-schema validator's verdict on the body for each
-   schema that rejects it (oracle; a schema not listed accepts, one that does not compile too) *)
-Definition putData (V : variant) (s : state) (key : N) (body : list (bytes * json)) (vd : list (bytes * bool))
-           (user : bytes) (conds : list bytes) (replace : bool) (timeStr : bytes) : res state :=
-  let valid := match schema_in_force s with
-               | Some sch => match @aget bytes bool bytes_eqb sch vd with Some b => b | None => true end
+(* PutData (neuronjson.go:1470) on an open version.  [sch] is the JSON schema getJSONSchema finds,
+   [vd] the validator's verdict on the body for each schema that rejects it (oracle; a schema not
+   listed accepts, one that does not compile too) *)
+Definition put (V : variant) (om : option memdb) (st : vstore) (sch : option bytes)
+           (key : N) (body : list (bytes * json)) (vd : list (bytes * bool))
+           (user : bytes) (conds : list bytes) (replace : bool) (timeStr : bytes) : res (option memdb * vstore) :=
+  let valid := match sch with
+               | Some sc => match @aget bytes bool bytes_eqb sc vd with Some b => b | None => true end
                | None => true
                end in
-  if st_locked s then Err
-  else if negb (nonempty user) then Err
+  if negb (nonempty user) then Err
   else if key =? 0 then Err
   else if negb valid then Err
   else
@@ -338,25 +371,33 @@ Definition putData (V : variant) (s : state) (key : N) (body : list (bytes * jso
     match oget s_bodyid new0 with
     | Some (JNum z) =>
         if (0 <=? z)%Z && (z <=? Z.of_N max_u64)%Z && (Z.to_N z =? key)
-        then storeAndUpdate V s key new0 user conds replace timeStr
+        then sau V om st key new0 user conds replace timeStr
         else Err
     | _ => Err
+    end.
+
+(* getJSONSchema on the open head of master: the compiled schema if there is one, else the stored bytes *)
+Definition schema_in_force (s : state) : option bytes :=
+  match st_compiled s with Some b => Some b | None => mget k_json_schema (s_meta (st_head s)) end.
+
+Definition putData (V : variant) (s : state) (key : N) (body : list (bytes * json)) (vd : list (bytes * bool))
+           (user : bytes) (conds : list bytes) (replace : bool) (timeStr : bytes) : res state :=
+  if st_locked s then Err
+  else
+    match put V (Some (st_mem s)) (st_head s) (schema_in_force s) key body vd user conds replace timeStr with
+    | Ok (Some m, st') => Ok (with_master s m (st_mmeta s) (st_compiled s) st' (st_parents s) (st_locked s))
+    | Ok (None, _) => Err        (* not reachable: the head of master has its memdb *)
+    | Err => Err
+    | Panic => Panic
     end.
 
 (* DeleteData (neuronjson.go:1557) *)
 Definition deleteData (V : variant) (s : state) (id : N) : res state :=
   if st_locked s then Err
   else
-    let m := st_mem s in
-    let st' := mkVS (ndel id (s_data (st_head s))) (s_meta (st_head s)) in
-    match nget id (m_data m) with
-    | Some o =>
-        res_bind (deleteBodyID V (m_ids m) id) (fun ids =>
-          Ok (mkSt (mkMem (ndel id (m_data m)) ids (fold_left (cadd (-1)) (dom o) (m_fields m)) (m_ftimes m)
-                          (v_ftime V || m_ftdirty m))
-                   (st_mmeta s) (st_compiled s) st' (st_parents s) (st_locked s)))
-    | None => Ok (mkSt m (st_mmeta s) (st_compiled s) st' (st_parents s) (st_locked s))
-    end.
+    res_bind (mem_del V (st_mem s) id) (fun m =>
+      Ok (with_master s m (st_mmeta s) (st_compiled s)
+            (mkVS (ndel id (s_data (st_head s))) (s_meta (st_head s))) (st_parents s) (st_locked s))).
 
 (* ---------- reload: Initialize / initMemoryDB / loadMemDB / initFieldTimes ---------- *)
 Fixpoint isort_ins (x : N) (l : list N) : list N :=
@@ -402,7 +443,6 @@ Definition loadMemDB (d : ndata) : memdb :=
   let data := fold_left (fun acc p => nset (fst p) (snd p) acc) d [] in
   mkMem data (sort_ids (map fst d)) (scan_counts d) (ft_of data) false.
 
-
 Definition load_meta (V : variant) (locked : bool) (sm : list (N * bytes)) : list (N * bytes) :=
   let m0 := if v_meta V || negb locked
             then match mget k_json_schema sm with Some b => mset k_json_schema b [] | None => [] end
@@ -410,9 +450,55 @@ Definition load_meta (V : variant) (locked : bool) (sm : list (N * bytes)) : lis
   let m1 := match mget k_schema sm with Some b => mset k_schema b m0 | None => m0 end in
   match mget k_schema_batch sm with Some b => mset k_schema_batch b m1 | None => m1 end.
 
+(* versions by reference *)
+Definition resolve (s : state) (ref : vref) : option vstore :=
+  match ref with
+  | VM a => nth_error (rev (st_head s :: st_parents s)) a
+  | VB i => match st_branch s with
+            | Some b => nth_error (rev (b_head b :: b_parents b)) i
+            | None => None
+            end
+  end.
+Definition is_master_head (s : state) (ref : vref) : bool :=
+  match ref with VM a => Nat.eqb a (length (st_parents s)) | VB _ => false end.
+Definition is_branch_head (s : state) (ref : vref) : bool :=
+  match ref, st_branch s with VB i, Some b => Nat.eqb i (length (b_parents b)) | _, _ => false end.
+Definition committed (s : state) (ref : vref) : bool :=
+  match ref with
+  | VM a => Nat.ltb a (length (st_parents s)) || (Nat.eqb a (length (st_parents s)) && st_locked s)
+  | VB i => match st_branch s with
+            | Some b => Nat.ltb i (length (b_parents b)) || (Nat.eqb i (length (b_parents b)) && b_locked b)
+            | None => false
+            end
+  end.
+Definition static_get (ref : vref) (l : list (vref * memdb)) : option memdb := @aget vref memdb vref_eqb ref l.
+
+(* the read-only UUID dbs: loaded, and (before repair 7) without fieldTimes *)
+Definition load_static (V : variant) (d : ndata) : memdb :=
+  let m := loadMemDB d in
+  if v_ftime V then m else mkMem (m_data m) (m_ids m) (m_fields m) [] false.
+
+(* the UUID db initMemoryDB builds for a configured version (repair 9: only if committed);
+   configurations naming unknown versions are not modelled *)
+Definition static_entry (V : variant) (s : state) (ref : vref) : option memdb :=
+  match resolve s ref with
+  | Some v => if v_binit V && negb (committed s ref) then None else Some (load_static V (s_data v))
+  | None => None
+  end.
+
 Definition reload (V : variant) (s : state) : state :=
+  let bm := if cfg_branch (st_cfg s)
+            then match st_branch s with
+                 | Some b => Some (loadMemDB (s_data (b_head b)))
+                 | None => if v_binit V then None else Some empty_mem   (* an empty db registered under the name *)
+                 end
+            else None in
+  let statics := fold_right (fun ref acc =>
+                   match static_entry V s ref with Some m => (ref, m) :: acc | None => acc end)
+                   [] (cfg_static (st_cfg s)) in
   mkSt (loadMemDB (s_data (st_head s))) (load_meta V (st_locked s) (s_meta (st_head s)))
-       (mget k_json_schema (s_meta (st_head s))) (st_head s) (st_parents s) (st_locked s).
+       (mget k_json_schema (s_meta (st_head s))) (st_head s) (st_parents s) (st_locked s)
+       (st_branch s) bm statics (st_cfg s).
 
 (* ---------- histories ---------- *)
 Record kvitem := mkKV { kv_key : N; kv_body : list (bytes * json); kv_vd : list (bytes * bool); kv_time : bytes }.
@@ -426,7 +512,10 @@ Inductive op :=
 | OpMetaDelete (kind : N)
 | OpCommit
 | OpNewVersion
-| OpReload.
+| OpReload
+| OpBranch (from : nat)          (* POST branch "b" on the committed master version [from] *)
+| OpOnBranch (o : op)            (* the request addressed to the head of branch "b" *)
+| OpSetConfig (c : config).      (* the store's "inmemory" setting; read at the next restart *)
 
 (* handleIngest: PutData per item, stops at the first error; earlier items stay applied *)
 Fixpoint putKVs (V : variant) (s : state) (items : list kvitem) (user : bytes) (conds : list bytes)
@@ -441,38 +530,122 @@ Fixpoint putKVs (V : variant) (s : state) (items : list kvitem) (user : bytes) (
       end
   end.
 
+Definition lift_state (s : state) (r : res state) : state * res unit :=
+  match r with Ok s' => (s', Ok tt) | Err => (s, Err) | Panic => (s, Panic) end.
+
+(* which memdb an update of the open master head reaches: before repair 9 an open version could
+   be configured as a read-only UUID db, and getMemDBbyVersion looks there first *)
+Definition head_static (V : variant) (s : state) : option memdb :=
+  if v_binit V then None else static_get (VM (length (st_parents s))) (st_static s).
+Definition set_static (ref : vref) (m : memdb) (l : list (vref * memdb)) := @aset vref memdb vref_eqb ref m l.
+
+(* requests on the head of branch "b": no metadata cache (ctx.Head() is false off master), the
+   memdb dbs.head["b"] if one is registered *)
+Definition step_branch (V : variant) (s : state) (o : op) : state * res unit :=
+  match st_branch s with
+  | None => (s, Err)
+  | Some b =>
+      let st := b_head b in
+      match o with
+      | OpPost key body vd user conds replace t =>
+          if b_locked b then (s, Err)
+          else match put V (st_bmem s) st (mget k_json_schema (s_meta st)) key body vd user conds replace t with
+               | Ok (bm, st') => (with_branch s (Some (mkB st' (b_parents b) false)) bm, Ok tt)
+               | Err => (s, Err)
+               | Panic => (s, Panic)
+               end
+      | OpDelete key =>
+          if b_locked b then (s, Err)
+          else
+            let st' := mkVS (ndel key (s_data st)) (s_meta st) in
+            match st_bmem s with
+            | Some m => match mem_del V m key with
+                        | Ok m' => (with_branch s (Some (mkB st' (b_parents b) false)) (Some m'), Ok tt)
+                        | Err => (s, Err)
+                        | Panic => (s, Panic)
+                        end
+            | None => (with_branch s (Some (mkB st' (b_parents b) false)) None, Ok tt)
+            end
+      | OpMetaPost kind val =>
+          if b_locked b || (3 <=? kind) then (s, Err)
+          else (with_branch s (Some (mkB (mkVS (s_data st) (mset kind val (s_meta st))) (b_parents b) false)) (st_bmem s), Ok tt)
+      | OpMetaDelete kind =>
+          if b_locked b || (3 <=? kind) then (s, Err)
+          else (with_branch s (Some (mkB (mkVS (s_data st) (mdel kind (s_meta st))) (b_parents b) false)) (st_bmem s), Ok tt)
+      | OpCommit =>
+          if b_locked b then (s, Err) else (with_branch s (Some (mkB st (b_parents b) true)) (st_bmem s), Ok tt)
+      | OpNewVersion =>
+          if b_locked b then (with_branch s (Some (mkB st (st :: b_parents b) false)) (st_bmem s), Ok tt) else (s, Err)
+      | _ => (s, Err)             (* not sent to the branch by the driver *)
+      end
+  end.
+
 (* one request: the new state and the response class (Err = HTTP 4xx, nothing changed) *)
 Definition step (V : variant) (s : state) (o : op) : state * res unit :=
-  let lift (r : res state) : state * res unit :=
-    match r with Ok s' => (s', Ok tt) | Err => (s, Err) | Panic => (s, Panic) end in
   match o with
-  | OpPost key body vd user conds replace t => lift (putData V s key body vd user conds replace t)
+  | OpPost key body vd user conds replace t =>
+      match head_static V s with
+      | None => lift_state s (putData V s key body vd user conds replace t)
+      | Some sm =>
+          (* the update goes to the UUID db of the open head, not to the HEAD db of master *)
+          if st_locked s then (s, Err)
+          else match put V (Some sm) (st_head s) (schema_in_force s) key body vd user conds replace t with
+               | Ok (Some m, st') =>
+                   (mkSt (st_mem s) (st_mmeta s) (st_compiled s) st' (st_parents s) (st_locked s) (st_branch s)
+                         (st_bmem s) (set_static (VM (length (st_parents s))) m (st_static s)) (st_cfg s), Ok tt)
+               | Ok (None, _) | Err => (s, Err)
+               | Panic => (s, Panic)
+               end
+      end
   | OpPostKVs items user conds replace =>
       if st_locked s then (s, Err) else putKVs V s items user conds replace
-  | OpDelete key => lift (deleteData V s key)
+  | OpDelete key =>
+      match head_static V s with
+      | None => lift_state s (deleteData V s key)
+      | Some sm =>
+          if st_locked s then (s, Err)
+          else match mem_del V sm key with
+               | Ok m => (mkSt (st_mem s) (st_mmeta s) (st_compiled s)
+                               (mkVS (ndel key (s_data (st_head s))) (s_meta (st_head s))) (st_parents s) (st_locked s)
+                               (st_branch s) (st_bmem s) (set_static (VM (length (st_parents s))) m (st_static s)) (st_cfg s), Ok tt)
+               | Err => (s, Err)
+               | Panic => (s, Panic)
+               end
+      end
   | OpMetaPost kind val =>
       if st_locked s || (3 <=? kind) then (s, Err)     (* three metadata endpoints: kinds 0, 1, 2 *)
-      else (mkSt (st_mem s) (mset kind val (st_mmeta s))
+      else (with_master s (st_mem s) (mset kind val (st_mmeta s))
                  (if kind =? k_json_schema then Some val else st_compiled s)
                  (mkVS (s_data (st_head s)) (mset kind val (s_meta (st_head s))))
                  (st_parents s) (st_locked s), Ok tt)
   | OpMetaDelete kind =>
       if st_locked s || (3 <=? kind) then (s, Err)
-      else (mkSt (st_mem s) (mdel kind (st_mmeta s))
+      else (with_master s (st_mem s) (mdel kind (st_mmeta s))
                  (if (kind =? k_json_schema) && v_schdel V then None else st_compiled s)
                  (mkVS (s_data (st_head s)) (mdel kind (s_meta (st_head s))))
                  (st_parents s) (st_locked s), Ok tt)
   | OpCommit =>
       if st_locked s then (s, Err)
-      else (mkSt (st_mem s) (st_mmeta s) (st_compiled s) (st_head s) (st_parents s) true, Ok tt)
+      else (with_master s (st_mem s) (st_mmeta s) (st_compiled s) (st_head s) (st_parents s) true, Ok tt)
   | OpNewVersion =>
       if st_locked s
-      then (mkSt (st_mem s) (st_mmeta s) (st_compiled s) (st_head s) (st_head s :: st_parents s) false, Ok tt)
+      then (with_master s (st_mem s) (st_mmeta s) (st_compiled s) (st_head s) (st_head s :: st_parents s) false, Ok tt)
       else (s, Err)
   | OpReload => (reload V s, Ok tt)
+  | OpBranch from =>
+      match st_branch s, resolve s (VM from) with
+      | None, Some v => if committed s (VM from)
+                        then (with_branch s (Some (mkB v [] false)) (st_bmem s), Ok tt)
+                        else (s, Err)
+      | _, _ => (s, Err)
+      end
+  | OpOnBranch o' => step_branch V s o'
+  | OpSetConfig c =>
+      (mkSt (st_mem s) (st_mmeta s) (st_compiled s) (st_head s) (st_parents s) (st_locked s)
+            (st_branch s) (st_bmem s) (st_static s) c, Ok tt)
   end.
 
-(* a history; a panic (the request wedges the server: the memdb mutex stays locked) ends it *)
+(* a history; a panic ends it *)
 Fixpoint run (V : variant) (s : state) (h : list op) : res state :=
   match h with
   | [] => Ok s
@@ -868,6 +1041,26 @@ Definition read_version (V : variant) (s : state) (ver : nat) (r : rreq) : optio
   match ver with
   | O => Some (if is_meta_req r && st_locked s then read_store V (st_head s) r else read_mem V s r)
   | S n => option_map (fun st => read_store V st r) (nth_error (st_parents s) n)
+  end.
+
+(* getMemDBbyVersion for any version: the read-only UUID dbs first, then the HEAD dbs of the
+   branches; everything else, and all metadata off the open head of master, from the store *)
+Definition read_ref (V : variant) (s : state) (ref : vref) (r : rreq) : option rres :=
+  match resolve s ref with
+  | None => None
+  | Some v =>
+      Some (
+        if is_meta_req r then
+          (if is_master_head s ref && negb (st_locked s) then read_mem V s r else read_store V v r)
+        else
+          match static_get ref (st_static s) with
+          | Some m => read_memdb V m r
+          | None =>
+              if is_master_head s ref then read_memdb V (st_mem s) r
+              else if is_branch_head s ref
+                   then match st_bmem s with Some m => read_memdb V m r | None => read_store V v r end
+                   else read_store V v r
+          end)
   end.
 
 End Query.
